@@ -950,7 +950,9 @@ def _check_database_structure(conn: sqlite3.Connection):
 
 def _calculate_txt_hash(txt: str):
     hasher = hashlib.sha256()
-    hasher.update(txt.encode("utf-8"))
+    # surrogatepass: a text read with errors="surrogateescape" (e.g. a Latin-1
+    # file) holds lone surrogates, which the parser itself accepts
+    hasher.update(txt.encode("utf-8", "surrogatepass"))
     return hasher.hexdigest()
 
 
